@@ -1548,9 +1548,13 @@ isqrt_rem(Type& q, Type& r, const Type from) {
     Type s = q + t;
     if (s <= r) {
       r -= s;
-      q = s + t;
+      // (s + t) >> 1 == (q >> 1) + t, computed without exceeding
+      // the range of a signed Type.
+      q = (q >> 1) + t;
     }
-    q >>= 1;
+    else {
+      q >>= 1;
+    }
   }
 }
 
